@@ -104,6 +104,9 @@ func (e *Engine) configKey(st *State) string {
 			if f.Atomic {
 				fl |= 2
 			}
+			if f.Recovered {
+				fl |= 1 << 20
+			}
 			put(fl)
 		}
 		if th.Pending != nil {
@@ -586,6 +589,8 @@ func (e *Engine) fire(st *State, a FireAlt) {
 	op := th.Pending
 	th.Pending = nil
 	th.Blocks++
+	th.Open = nil
+	e.curThread, e.curInstr = th.ID, op.Instr
 	if a.Partner == 0 {
 		e.fireLocal(st, th, op, a.Case)
 		return
@@ -596,6 +601,7 @@ func (e *Engine) fire(st *State, a FireAlt) {
 	pop := pt.Pending
 	pt.Pending = nil
 	pt.Blocks++
+	pt.Open = nil
 	var val Value
 	if op.Kind == VSend {
 		val = op.Val
@@ -762,6 +768,7 @@ func (e *Engine) Explore(st *State) {
 	for _, s := range e.settle(st) {
 		x.add(s)
 	}
+	lastProg := time.Now()
 	for r := 0; r <= x.maxRank; r++ {
 		lv := x.levels[r]
 		if lv == nil {
@@ -781,6 +788,12 @@ func (e *Engine) Explore(st *State) {
 			e.Stats.Configs++
 			if e.Stats.Configs > e.MaxConfigs {
 				abort("UNWIND", "configuration bound %d exceeded", e.MaxConfigs)
+			}
+			if e.Progress && time.Since(lastProg) > 5*time.Second {
+				lastProg = time.Now()
+				fmt.Fprintf(e.Log, "   .. rank %d/%d configs=%d trans=%d merges=%d unmergeable=%d queries=%d solver=%.1fs terms=%d\n",
+					r, x.maxRank, e.Stats.Configs, e.Stats.Transitions, e.Stats.Merges, e.Stats.Unmergeable,
+					e.Solver.Stats.Queries, e.Solver.Stats.Time.Seconds(), term.NumTerms())
 			}
 			if !e.Deadline.IsZero() && e.Stats.Configs%256 == 0 && time.Now().After(e.Deadline) {
 				abort("UNWIND", "time budget exceeded after %d configurations", e.Stats.Configs)
